@@ -923,7 +923,9 @@ def registry_walk_spec(rep, rule, func, helper, storage, direction, first_hit,
                     problems.append('after a None result returns `%s`' % ret[:40])
                 if isnone is None and ret != last:
                     problems.append('helper result not tested / returned')
-                if isnone is None and ret == last:
+                tested_somehow = any(c_.endswith(' is None') and (helper + '(') in c_
+                                     for c_, t_, p_ in ps.order)
+                if isnone is None and ret == last and not tested_somehow:
                     # inside the walk an untested result is overwritten by the next
                     # registry that applies: the earliest registry no longer wins
                     problems.append('the result of %s is never tested against None: the '
